@@ -75,13 +75,9 @@ theorem decodeShdr_lazy (c : Cls) (enc : Enc) (r : Bytes) (ss : BitVec 64) (te :
   cases c <;> rfl
 
 @[simp] theorem streamSizeOf_data (tr : List Trans) (st : IStream) : (streamSizeOf tr st).1.data = st.data := by
-  unfold streamSizeOf; split
-  · simp
-  · rfl
+  rw [streamSizeOf_val_ls]; split <;> rfl
 @[simp] theorem streamSizeOf_kind (tr : List Trans) (st : IStream) : (streamSizeOf tr st).1.kind = st.kind := by
-  unfold streamSizeOf; split
-  · simp
-  · rfl
+  rw [streamSizeOf_val_ls]; split <;> rfl
 @[simp] theorem hdrRead_data (tr : List Trans) (st : IStream) (o : Int) (n : Nat) :
     (hdrRead_ls tr st o n).1.data = st.data := by simp [hdrRead_ls]
 @[simp] theorem hdrRead_kind (tr : List Trans) (st : IStream) (o : Int) (n : Nat) :
@@ -452,7 +448,6 @@ theorem translated_read_eq (cont img : Bytes) (table : List Trans) (sc si : IStr
 
 /-- the same for the header-record reads (`seekg(translate(pos)); read`) on a good stream -/
 theorem translated_hdrRead_eq (cont img : Bytes) (table : List Trans) (sc si : IStream)
-    (hne : table ≠ [])
     (hsc : sc.data = cont) (hsi : si.data = img) (hce : sc.eof = false) (hcf : sc.fail = false)
     (hie : si.eof = false) (hif : si.fail = false) (k n : Nat)
     (hrep : RangeRep cont table img k n) :
@@ -462,15 +457,11 @@ theorem translated_hdrRead_eq (cont img : Bytes) (table : List Trans) (sc si : I
   obtain ⟨h0, h1, h2, h3⟩ := hrep
   subst hsc; subst hsi
   rw [hdrRead_inside si hie hif k n h2]
-  have hss : streamSizeOf table sc = (sc, u64max) := by
-    unfold streamSizeOf
-    cases table with
-    | nil => exact absurd rfl hne
-    | cons a l => rfl
   unfold hdrRead_ls
-  rw [hss]
+  rw [streamSizeOf_good_ls table sc hce hcf]
   simp only []
-  rw [IStream.seekg_ok_ls sc hcf _ h0 (by omega),
+  rw [IStream.seekg_ok_ls { sc with pos := sc.data.length } hcf _ h0
+      (by show (trApply table (Int.ofNat k)).toNat ≤ sc.data.length; omega),
     IStream.read_ok_ls { sc with pos := (trApply table (Int.ofNat k)).toNat, eof := false } rfl hcf n h1]
   simp only [Int.ofNat_eq_natCast] at *
   simp [h3, hcf]
@@ -598,43 +589,38 @@ theorem hdrRead_flagEq (tr : List Trans) (s s' : IStream) (h : FlagEq s s') (off
   | mk d' p' e' f' g' k' =>
     simp only at hd hk hf
     subst hd; subst hk; subst hf
-    unfold hdrRead_ls streamSizeOf FlagEq
-    cases tr with
-    | nil =>
-      cases f
-      · simp [IStream.seekEnd, IStream.tellg, IStream.good, IStream.seekg, IStream.read]
-        repeat' split
-        all_goals simp_all
-      · simp [IStream.seekEnd, IStream.tellg, IStream.good, IStream.seekg, IStream.read]
-    | cons a l =>
-      cases f
-      · simp [IStream.seekg, IStream.read, IStream.good]
-        repeat' split
-        all_goals simp_all
-      · simp [IStream.seekg, IStream.read, IStream.good]
+    unfold hdrRead_ls FlagEq
+    simp only [streamSizeOf_val_ls]
+    cases f
+    · simp [IStream.good, IStream.seekg, IStream.read]
+      repeat' split
+      all_goals simp_all
+    · simp [IStream.good, IStream.seekg, IStream.read]
 
 /-- a record read that leaves the stream unfailed was made on an unfailed stream, so the size
     probe saw the real length -/
-theorem hdrRead_ss (s : IStream) (off : Int) (n : Nat) (h : (hdrRead_ls [] s off n).1.fail = false) :
-    (hdrRead_ls [] s off n).2.2 = BitVec.ofNat 64 s.data.length := by
+theorem hdrRead_ss (tr : List Trans) (s : IStream) (off : Int) (n : Nat) (h : (hdrRead_ls tr s off n).1.fail = false) :
+    (hdrRead_ls tr s off n).2.2 = BitVec.ofNat 64 s.data.length := by
   cases s with
   | mk d p e f g k =>
-    unfold hdrRead_ls streamSizeOf at h ⊢
+    unfold hdrRead_ls at h ⊢
+    simp only [streamSizeOf_val_ls] at h ⊢
     cases f
-    · simp [IStream.seekEnd, IStream.tellg, IStream.good]
-    · simp [IStream.seekEnd, IStream.tellg, IStream.good, IStream.seekg, IStream.read] at h
+    · simp
+    · simp [IStream.good, IStream.seekg, IStream.read] at h
 
 theorem isolatedRead_fail_of_fail (s : IStream) (off n : BitVec 64) (h : s.fail = true) :
     (isolatedRead s off n).1.fail = true := by
   rw [(isolatedRead_flags s off n).2, h]; simp
 
-/-- with the real length as `stream_size`, `load_data` reads only ranges inside the stream -/
-theorem secOutcome_reads_inrange (c : Cls) (st : IStream) (stype : BitVec 32) (size offset : BitVec 64)
+/-- with the real length as `stream_size`, `load_data` reads only ranges inside the stream (the
+    range starts at the *translated* offset: a position in the stream) -/
+theorem secOutcome_reads_inrange (c : Cls) (tr : List Trans) (st : IStream) (stype : BitVec 32) (size offset0 : BitVec 64)
     (len : Nat) (nd : Bool) (hl : len < 18446744073709551616)
-    (h : (secOutcome c [] st stype size offset (BitVec.ofNat 64 len) nd).reads = true) :
-    offset.toNat + size.toNat ≤ len := by
+    (h : (secOutcome c tr st stype size offset0 (BitVec.ofNat 64 len) nd).reads = true) :
+    (secOff tr offset0).toNat + size.toNat ≤ len := by
   unfold secOutcome at h
-  simp only [secOff_nil] at h
+  generalize secOff tr offset0 = offset at h ⊢
   have ho := offset.isLt; have hs := size.isLt
   by_cases g1 : BitVec.ult (BitVec.ofNat 64 len) offset = true
   · cases c <;> simp [sec32_load_data_off_gt, sec64_load_data_off_gt, g1, SecOutcome.reads] at h
@@ -645,18 +631,18 @@ theorem secOutcome_reads_inrange (c : Cls) (st : IStream) (stype : BitVec 32) (s
         decide_eq_true_eq, not_or, Nat.not_lt] at g1 g2
       omega
 
-theorem secGetData_fail_preserved (c : Cls) (ls : LoadSt) (b : SecBuf)
+theorem secGetData_fail_preserved (c : Cls) (tr : List Trans) (ls : LoadSt) (b : SecBuf)
     (h63 : ls.st.data.length < 9223372036854775808)
     (hss : ls.st.fail = false → b.streamSize = BitVec.ofNat 64 ls.st.data.length) :
-    (secGetData c [] ls b).1.st.fail = ls.st.fail := by
+    (secGetData c tr ls b).1.st.fail = ls.st.fail := by
   rw [secGetData_st]
   split
   · rename_i hr
     simp only [Bool.and_eq_true] at hr
     cases hf : ls.st.fail
     · rw [hss hf] at hr
-      have := secOutcome_reads_inrange c ls.st b.stype b.size b.offset _ _ (by omega) hr.2
-      rw [secOff_nil, isolatedRead_ok ls.st b.offset b.size this h63]
+      have := secOutcome_reads_inrange c tr ls.st b.stype b.size b.offset _ _ (by omega) hr.2
+      rw [isolatedRead_ok ls.st (secOff tr b.offset) b.size this h63]
       exact hf
     · exact isolatedRead_fail_of_fail _ _ _ hf
   · rfl
@@ -689,10 +675,10 @@ theorem secLoad_snd_flagEq (c : Cls) (enc : Enc) (tr : List Trans) (ls ls' : Loa
       rw [secOutcome_indep c tr _ _ h3.1 h3.2.1]
     · rfl
 
-theorem secLoad_st_flagEq (c : Cls) (enc : Enc) (lsL lsE : LoadSt) (h : FlagEq lsL.st lsE.st)
+theorem secLoad_st_flagEq (c : Cls) (enc : Enc) (tr : List Trans) (lsL lsE : LoadSt) (h : FlagEq lsL.st lsE.st)
     (h63 : lsE.st.data.length < 9223372036854775808) (off : Int) (idx : Nat) :
-    FlagEq (secLoad c enc [] lsL off true idx).1.st (secLoad c enc [] lsE off false idx).1.st := by
-  obtain ⟨h1, h2, h3⟩ := hdrRead_flagEq [] lsL.st lsE.st h off (shdrSize c)
+    FlagEq (secLoad c enc tr lsL off true idx).1.st (secLoad c enc tr lsE off false idx).1.st := by
+  obtain ⟨h1, h2, h3⟩ := hdrRead_flagEq tr lsL.st lsE.st h off (shdrSize c)
   rw [secLoad_eq_ls, secLoad_eq_ls]
   simp only []
   rw [h2]
@@ -700,8 +686,8 @@ theorem secLoad_st_flagEq (c : Cls) (enc : Enc) (lsL lsE : LoadSt) (h : FlagEq l
   · exact h3
   · simp only [if_true, Bool.false_eq_true, if_false]
     refine ⟨by simp [h.1], by simp [h.2.1], ?_⟩
-    rw [secGetData_fail_preserved c _ _ (by simpa using h63)
-      (by intro hf; simp only [decodeShdr_streamSize_ls, secInit]; simpa using hdrRead_ss lsE.st off (shdrSize c) hf)]
+    rw [secGetData_fail_preserved c tr _ _ (by simpa using h63)
+      (by intro hf; simp only [decodeShdr_streamSize_ls, secInit]; simpa using hdrRead_ss tr lsE.st off (shdrSize c) hf)]
     exact h3.2.2
 
 /-! #### pairs of a lazily and an eagerly loaded section -/
@@ -709,59 +695,59 @@ theorem secLoad_st_flagEq (c : Cls) (enc : Enc) (lsL lsE : LoadSt) (h : FlagEq l
 def Over (D : Bytes) (K : StreamKind) (ls : LoadSt) : Prop := ls.st.data = D ∧ ls.st.kind = K
 
 /-- a settled section: requesting its data changes nothing observable and is idempotent -/
-def Stable (c : Cls) (D : Bytes) (K : StreamKind) (be : SecBuf) : Prop :=
-  ∀ ls, Over D K ls → secObs (secGetData c [] ls be).2 = secObs be ∧
-    (!(secGetData c [] ls be).2.isLoaded && (secGetData c [] ls be).2.canLoad) = false
+def Stable (c : Cls) (tr : List Trans) (D : Bytes) (K : StreamKind) (be : SecBuf) : Prop :=
+  ∀ ls, Over D K ls → secObs (secGetData c tr ls be).2 = secObs be ∧
+    (!(secGetData c tr ls be).2.isLoaded && (secGetData c tr ls be).2.canLoad) = false
 
 /-- `bl` is some state of a lazily loaded section whose eventual data is what `be` already shows -/
-def SecPair (c : Cls) (D : Bytes) (K : StreamKind) (bl be : SecBuf) : Prop :=
-  ∃ b0, Fresh b0 ∧ SecInv b0 (outcomeOf c [] D K b0) bl ∧
-    secObs (secGetApply b0 (outcomeOf c [] D K b0)) = secObs be ∧ Stable c D K be
+def SecPair (c : Cls) (tr : List Trans) (D : Bytes) (K : StreamKind) (bl be : SecBuf) : Prop :=
+  ∃ b0, Fresh b0 ∧ SecInv b0 (outcomeOf c tr D K b0) bl ∧
+    secObs (secGetApply b0 (outcomeOf c tr D K b0)) = secObs be ∧ Stable c tr D K be
 
 theorem getApply_settled (b : SecBuf) (o : SecOutcome) :
     (!(secGetApply b o).isLoaded && (secGetApply b o).canLoad) = false := by
   rcases o with _ | _ | d | _ | (_ | _) <;> simp [secGetApply, SecOutcome.apply]
 
-theorem stable_of_settled (c : Cls) (D : Bytes) (K : StreamKind) (b : SecBuf)
-    (h : (!b.isLoaded && b.canLoad) = false) : Stable c D K b := by
+theorem stable_of_settled (c : Cls) (tr : List Trans) (D : Bytes) (K : StreamKind) (b : SecBuf)
+    (h : (!b.isLoaded && b.canLoad) = false) : Stable c tr D K b := by
   intro ls _
-  have : secGetData c [] ls b = (ls, b) := by rw [secGetData_eq_ls, h]; simp
+  have : secGetData c tr ls b = (ls, b) := by rw [secGetData_eq_ls, h]; simp
   rw [this]; exact ⟨rfl, h⟩
 
 /-- the conclusion one wants from a pair: any interleaving on the lazy side, then a request,
     shows what a request on the eager side shows -/
-theorem SecPair.obs {c : Cls} {D : Bytes} {K : StreamKind} {bl be : SecBuf} (h : SecPair c D K bl be)
+theorem SecPair.obs {c : Cls} {tr : List Trans} {D : Bytes} {K : StreamKind} {bl be : SecBuf} (h : SecPair c tr D K bl be)
     (ops : List DataOp) (ls1 ls2 : LoadSt) (h1 : Over D K ls1) (h2 : Over D K ls2) :
-    secObs (secGetData c [] (runSecOps c [] ls1 bl ops).1 (runSecOps c [] ls1 bl ops).2).2 =
-      secObs (secGetData c [] ls2 be).2 := by
+    secObs (secGetData c tr (runSecOps c tr ls1 bl ops).1 (runSecOps c tr ls1 bl ops).2).2 =
+      secObs (secGetData c tr ls2 be).2 := by
   obtain ⟨b0, hf, hinv, hobs, hst⟩ := h
-  obtain ⟨g1, g2, g3⟩ := runSecOps_inv c [] D K b0 hf ops ls1 bl h1.1 h1.2 hinv
+  obtain ⟨g1, g2, g3⟩ := runSecOps_inv c tr D K b0 hf ops ls1 bl h1.1 h1.2 hinv
   rw [← g1, ← g2] at g3
-  rw [request_inv c [] _ b0 _ hf g3, g1, g2, hobs, (hst ls2 h2).1]
+  rw [request_inv c tr _ b0 _ hf g3, g1, g2, hobs, (hst ls2 h2).1]
 
-theorem SecPair.get {c : Cls} {D : Bytes} {K : StreamKind} {bl be : SecBuf} (h : SecPair c D K bl be)
+theorem SecPair.get {c : Cls} {tr : List Trans} {D : Bytes} {K : StreamKind} {bl be : SecBuf} (h : SecPair c tr D K bl be)
     (ls1 ls2 : LoadSt) (h1 : Over D K ls1) (h2 : Over D K ls2) :
-    SecPair c D K (secGetData c [] ls1 bl).2 (secGetData c [] ls2 be).2 ∧
-    secObs (secGetData c [] ls1 bl).2 = secObs (secGetData c [] ls2 be).2 := by
+    SecPair c tr D K (secGetData c tr ls1 bl).2 (secGetData c tr ls2 be).2 ∧
+    secObs (secGetData c tr ls1 bl).2 = secObs (secGetData c tr ls2 be).2 := by
   obtain ⟨b0, hf, hinv, hobs, hst⟩ := h
-  have hi : SecInv b0 (outcomeOf c [] ls1.st.data ls1.st.kind b0) bl := by rw [h1.1, h1.2]; exact hinv
-  have hr := request_inv c [] ls1 b0 bl hf hi
+  have hi : SecInv b0 (outcomeOf c tr ls1.st.data ls1.st.kind b0) bl := by rw [h1.1, h1.2]; exact hinv
+  have hr := request_inv c tr ls1 b0 bl hf hi
   rw [h1.1, h1.2] at hr
-  refine ⟨⟨b0, hf, Or.inl hr, by rw [hobs, (hst ls2 h2).1], stable_of_settled c D K _ (hst ls2 h2).2⟩, ?_⟩
+  refine ⟨⟨b0, hf, Or.inl hr, by rw [hobs, (hst ls2 h2).1], stable_of_settled c tr D K _ (hst ls2 h2).2⟩, ?_⟩
   rw [hr, hobs, (hst ls2 h2).1]
 
-theorem eager_stable (c : Cls) (enc : Enc) (D : Bytes) (K : StreamKind) (ls : LoadSt) (off : Int) (idx : Nat) :
-    Stable c D K (secLoad c enc [] ls off false idx).2 := by
+theorem eager_stable (c : Cls) (enc : Enc) (tr : List Trans) (D : Bytes) (K : StreamKind) (ls : LoadSt) (off : Int) (idx : Nat) :
+    Stable c tr D K (secLoad c enc tr ls off false idx).2 := by
   rw [secLoad_eq_ls]
   simp only []
   split
   · intro ls' _
     rw [secGetData_snd]
     simp only [secInit, Bool.not_false, Bool.and_self, if_true, Option.isNone_none]
-    have key : ∀ ss, secOutcome c [] ls'.st 0#32 0#64 0#64 ss true = .refuse ∨
-        secOutcome c [] ls'.st 0#32 0#64 0#64 ss true = .keep true :=
-      fun ss => secOutcome_nobits c [] ls'.st _ _ _ ss (by decide)
-    rcases key (hdrRead_ls [] ls.st off (shdrSize c)).2.2 with h | h <;>
+    have key : ∀ ss, secOutcome c tr ls'.st 0#32 0#64 0#64 ss true = .refuse ∨
+        secOutcome c tr ls'.st 0#32 0#64 0#64 ss true = .keep true :=
+      fun ss => secOutcome_nobits c tr ls'.st _ _ _ ss (by decide)
+    rcases key (hdrRead_ls tr ls.st off (shdrSize c)).2.2 with h | h <;>
       simp [h, secGetApply, SecOutcome.apply, secObs]
   · simp only [Bool.false_eq_true, if_false]
     apply stable_of_settled
@@ -769,19 +755,19 @@ theorem eager_stable (c : Cls) (enc : Enc) (D : Bytes) (K : StreamKind) (ls : Lo
     simp only [decodeShdr_isLoaded_ls, decodeShdr_canLoad_ls, secInit, Bool.not_false, Bool.and_self, if_true]
     exact getApply_settled _ _
 
-theorem secPair_of_load (c : Cls) (enc : Enc) (D : Bytes) (K : StreamKind) (lsL lsE : LoadSt)
+theorem secPair_of_load (c : Cls) (enc : Enc) (tr : List Trans) (D : Bytes) (K : StreamKind) (lsL lsE : LoadSt)
     (h : FlagEq lsL.st lsE.st) (hE : Over D K lsE) (off : Int) (idx : Nat) :
-    SecPair c D K (secLoad c enc [] lsL off true idx).2 (secLoad c enc [] lsE off false idx).2 := by
-  rw [secLoad_snd_flagEq c enc [] lsL lsE h off true idx]
-  have hf := secLoad_lazy_fresh c enc [] lsE off idx
-  have h0 : SecInv (secLoad c enc [] lsE off true idx).2
-      (outcomeOf c [] lsE.st.data lsE.st.kind (secLoad c enc [] lsE off true idx).2)
-      (secLoad c enc [] lsE off true idx).2 := Or.inr ⟨_, rfl, Or.inl rfl⟩
-  have hr := request_inv c [] lsE _ _ hf h0
-  have he := secGetData_lazy_eq_eager c enc [] lsE lsE off idx rfl rfl
+    SecPair c tr D K (secLoad c enc tr lsL off true idx).2 (secLoad c enc tr lsE off false idx).2 := by
+  rw [secLoad_snd_flagEq c enc tr lsL lsE h off true idx]
+  have hf := secLoad_lazy_fresh c enc tr lsE off idx
+  have h0 : SecInv (secLoad c enc tr lsE off true idx).2
+      (outcomeOf c tr lsE.st.data lsE.st.kind (secLoad c enc tr lsE off true idx).2)
+      (secLoad c enc tr lsE off true idx).2 := Or.inr ⟨_, rfl, Or.inl rfl⟩
+  have hr := request_inv c tr lsE _ _ hf h0
+  have he := secGetData_lazy_eq_eager c enc tr lsE lsE off idx rfl rfl
   rw [hr, hE.1, hE.2] at he
   rw [hE.1, hE.2] at h0
-  exact ⟨_, hf, h0, he, eager_stable c enc D K lsE off idx⟩
+  exact ⟨_, hf, h0, he, eager_stable c enc tr D K lsE off idx⟩
 
 theorem getApply_name (b : SecBuf) (o : SecOutcome) (s : Bytes) :
     secGetApply { b with name := s } o = { secGetApply b o with name := s } := by
@@ -798,11 +784,11 @@ theorem secGetData_name (c : Cls) (tr : List Trans) (ls : LoadSt) (b : SecBuf) (
 theorem secObs_name (b : SecBuf) (s : Bytes) : secObs { b with name := s } = { secObs b with name := s } := rfl
 
 /-- setting the same name on both sides keeps a pair a pair -/
-theorem SecPair.name {c : Cls} {D : Bytes} {K : StreamKind} {bl be : SecBuf} (h : SecPair c D K bl be)
-    (s : Bytes) : SecPair c D K { bl with name := s } { be with name := s } := by
+theorem SecPair.name {c : Cls} {tr : List Trans} {D : Bytes} {K : StreamKind} {bl be : SecBuf} (h : SecPair c tr D K bl be)
+    (s : Bytes) : SecPair c tr D K { bl with name := s } { be with name := s } := by
   obtain ⟨b0, hf, hinv, hobs, hst⟩ := h
-  have ho : outcomeOf c [] D K { b0 with name := s } = outcomeOf c [] D K b0 := rfl
-  have hga := getApply_name b0 (outcomeOf c [] D K b0) s
+  have ho : outcomeOf c tr D K { b0 with name := s } = outcomeOf c tr D K b0 := rfl
+  have hga := getApply_name b0 (outcomeOf c tr D K b0) s
   refine ⟨{ b0 with name := s }, hf, ?_, ?_, ?_⟩
   · rw [ho]
     rcases hinv with h | ⟨ds, h, hds⟩
@@ -813,15 +799,15 @@ theorem SecPair.name {c : Cls} {D : Bytes} {K : StreamKind} {bl be : SecBuf} (h 
       · left; exact h'
       · right
         refine ⟨?_, by rw [hga]; exact h2⟩
-        generalize outcomeOf c [] D K b0 = o at h1
+        generalize outcomeOf c tr D K b0 = o at h1
         rcases o with _ | _ | d | _ | (_ | _) <;> simp_all [SecOutcome.apply]
   · rw [ho, hga]
-    show ({ secObs (secGetApply b0 (outcomeOf c [] D K b0)) with name := s } : SecObs) = { secObs be with name := s }
+    show ({ secObs (secGetApply b0 (outcomeOf c tr D K b0)) with name := s } : SecObs) = { secObs be with name := s }
     rw [hobs]
   · intro ls hls
     rw [secGetData_name]
     refine ⟨?_, (hst ls hls).2⟩
-    show ({ secObs (secGetData c [] ls be).2 with name := s } : SecObs) = { secObs be with name := s }
+    show ({ secObs (secGetData c tr ls be).2 with name := s } : SecObs) = { secObs be with name := s }
     rw [(hst ls hls).1]
 
 /-- header fields (everything but data / data size) agree in a pair -/
@@ -831,20 +817,20 @@ def hdrFields (b : SecBuf) :=
 theorem getApply_hdrFields (b : SecBuf) (o : SecOutcome) : hdrFields (secGetApply b o) = hdrFields b := by
   rcases o with _ | _ | d | _ | (_ | _) <;> simp [secGetApply, SecOutcome.apply, hdrFields]
 
-theorem SecPair.fields {c : Cls} {D : Bytes} {K : StreamKind} {bl be : SecBuf} (h : SecPair c D K bl be) :
+theorem SecPair.fields {c : Cls} {tr : List Trans} {D : Bytes} {K : StreamKind} {bl be : SecBuf} (h : SecPair c tr D K bl be) :
     hdrFields bl = hdrFields be := by
   obtain ⟨b0, hf, hinv, hobs, hst⟩ := h
   have h1 : hdrFields bl = hdrFields b0 := by
     rcases hinv with h | ⟨ds, h, _⟩
     · rw [h, getApply_hdrFields]
     · rw [h]; rfl
-  have h2 : hdrFields (secGetApply b0 (outcomeOf c [] D K b0)) = hdrFields be := by
+  have h2 : hdrFields (secGetApply b0 (outcomeOf c tr D K b0)) = hdrFields be := by
     simp only [secObs, SecObs.mk.injEq] at hobs
     simp only [hdrFields, Prod.mk.injEq]
     exact ⟨hobs.1, hobs.2.1, hobs.2.2.1, hobs.2.2.2.1, hobs.2.2.2.2.1, hobs.2.2.2.2.2.1, hobs.2.2.2.2.2.2.1,
       hobs.2.2.2.2.2.2.2.1, hobs.2.2.2.2.2.2.2.2.1, hobs.2.2.2.2.2.2.2.2.2.1, hobs.2.2.2.2.2.2.2.2.2.2.1,
       hobs.2.2.2.2.2.2.2.2.2.2.2.1⟩
-  rw [h1, ← getApply_hdrFields b0 (outcomeOf c [] D K b0), h2]
+  rw [h1, ← getApply_hdrFields b0 (outcomeOf c tr D K b0), h2]
 
 theorem getString_obs (b b' : SecBuf) (h : secObs b = secObs b') (x : BitVec 32) : getString b x = getString b' x := by
   simp only [secObs, SecObs.mk.injEq] at h
@@ -913,8 +899,8 @@ theorem hdrRead_fail_mono (tr : List Trans) (s : IStream) (off : Int) (n : Nat) 
   cases s with
   | mk d p e f g k =>
     simp only at h; subst h
-    unfold hdrRead_ls streamSizeOf
-    cases tr <;> simp [IStream.seekEnd, IStream.tellg, IStream.good, IStream.seekg, IStream.read]
+    unfold hdrRead_ls
+    simp [streamSizeOf_val_ls, IStream.good, IStream.seekg, IStream.read]
 
 theorem secGetData_fail_mono (c : Cls) (tr : List Trans) (ls : LoadSt) (b : SecBuf) (h : ls.st.fail = true) :
     (secGetData c tr ls b).1.st.fail = true := by
@@ -943,28 +929,28 @@ theorem secLoad_over (c : Cls) (enc : Enc) (tr : List Trans) (ls : LoadSt) (off 
 /-- `stream_size` recorded in a section is the real length unless the stream is (and stays) failed -/
 def SsOk (len : Nat) (ls : LoadSt) (b : SecBuf) : Prop := ls.st.fail = false → b.streamSize = BitVec.ofNat 64 len
 
-theorem secLoad_ssOk (c : Cls) (enc : Enc) (ls : LoadSt) (off : Int) (idx : Nat) :
-    SsOk ls.st.data.length (secLoad c enc [] ls off true idx).1 (secLoad c enc [] ls off true idx).2 := by
+theorem secLoad_ssOk (c : Cls) (enc : Enc) (tr : List Trans) (ls : LoadSt) (off : Int) (idx : Nat) :
+    SsOk ls.st.data.length (secLoad c enc tr ls off true idx).1 (secLoad c enc tr ls off true idx).2 := by
   rw [secLoad_eq_ls]; simp only [if_true]
   intro hf
   split at hf <;> split
-  · simp only [secInit]; exact hdrRead_ss ls.st off (shdrSize c) hf
+  · simp only [secInit]; exact hdrRead_ss tr ls.st off (shdrSize c) hf
   · rename_i a b; exact absurd a b
   · rename_i a b; exact absurd b a
-  · simp only [decodeShdr_streamSize_ls, secInit]; exact hdrRead_ss ls.st off (shdrSize c) hf
+  · simp only [decodeShdr_streamSize_ls, secInit]; exact hdrRead_ss tr ls.st off (shdrSize c) hf
 
-theorem loadSectionsLoop_sim (c : Cls) (enc : Enc) (D : Bytes) (K : StreamKind)
+theorem loadSectionsLoop_sim (c : Cls) (enc : Enc) (tr : List Trans) (D : Bytes) (K : StreamKind)
     (h63 : D.length < 9223372036854775808) (shoff : Int) (entsize : Nat) :
     ∀ (n i : Nat) (lsL lsE : LoadSt) (accL accE : List SecBuf),
       FlagEq lsL.st lsE.st → Over D K lsE →
-      Forall2 (SecPair c D K) accL accE → (∀ b, b ∈ accL → SsOk D.length lsL b) →
-      Forall2 (SecPair c D K) (loadSectionsLoop c enc [] true shoff entsize n i lsL accL).2
-        (loadSectionsLoop c enc [] false shoff entsize n i lsE accE).2 ∧
-      FlagEq (loadSectionsLoop c enc [] true shoff entsize n i lsL accL).1.st
-        (loadSectionsLoop c enc [] false shoff entsize n i lsE accE).1.st ∧
-      Over D K (loadSectionsLoop c enc [] false shoff entsize n i lsE accE).1 ∧
-      (∀ b, b ∈ (loadSectionsLoop c enc [] true shoff entsize n i lsL accL).2 →
-        SsOk D.length (loadSectionsLoop c enc [] true shoff entsize n i lsL accL).1 b) := by
+      Forall2 (SecPair c tr D K) accL accE → (∀ b, b ∈ accL → SsOk D.length lsL b) →
+      Forall2 (SecPair c tr D K) (loadSectionsLoop c enc tr true shoff entsize n i lsL accL).2
+        (loadSectionsLoop c enc tr false shoff entsize n i lsE accE).2 ∧
+      FlagEq (loadSectionsLoop c enc tr true shoff entsize n i lsL accL).1.st
+        (loadSectionsLoop c enc tr false shoff entsize n i lsE accE).1.st ∧
+      Over D K (loadSectionsLoop c enc tr false shoff entsize n i lsE accE).1 ∧
+      (∀ b, b ∈ (loadSectionsLoop c enc tr true shoff entsize n i lsL accL).2 →
+        SsOk D.length (loadSectionsLoop c enc tr true shoff entsize n i lsL accL).1 b) := by
   intro n
   induction n with
   | zero =>
@@ -974,44 +960,44 @@ theorem loadSectionsLoop_sim (c : Cls) (enc : Enc) (D : Bytes) (K : StreamKind)
   | succ n ih =>
     intro i lsL lsE accL accE hF hO hA hS
     simp only [loadSectionsLoop]
-    have hp := secPair_of_load c enc D K lsL lsE hF hO (shoff + Int.ofNat i * Int.ofNat entsize) i
-    have hf' := secLoad_st_flagEq c enc lsL lsE hF (by rw [hO.1]; exact h63) (shoff + Int.ofNat i * Int.ofNat entsize) i
-    have ho' := secLoad_over c enc [] lsE (shoff + Int.ofNat i * Int.ofNat entsize) false i
+    have hp := secPair_of_load c enc tr D K lsL lsE hF hO (shoff + Int.ofNat i * Int.ofNat entsize) i
+    have hf' := secLoad_st_flagEq c enc tr lsL lsE hF (by rw [hO.1]; exact h63) (shoff + Int.ofNat i * Int.ofNat entsize) i
+    have ho' := secLoad_over c enc tr lsE (shoff + Int.ofNat i * Int.ofNat entsize) false i
     have hdL : lsL.st.data = D := by rw [hF.1, hO.1]
     apply ih (i + 1) _ _ _ _ hf' ⟨by rw [ho'.1, hO.1], by rw [ho'.2, hO.2]⟩ (Forall2.cons hp hA)
     intro b hb
     simp only [List.mem_cons] at hb
     rcases hb with hb | hb
     · rw [hb]
-      have := secLoad_ssOk c enc lsL (shoff + Int.ofNat i * Int.ofNat entsize) i
+      have := secLoad_ssOk c enc tr lsL (shoff + Int.ofNat i * Int.ofNat entsize) i
       rw [hdL] at this; exact this
     · intro hf
       apply hS b hb
       cases hq : lsL.st.fail
       · rfl
-      · rw [secLoad_fail_mono c enc [] lsL _ true i hq] at hf; exact absurd hf (by simp)
+      · rw [secLoad_fail_mono c enc tr lsL _ true i hq] at hf; exact absurd hf (by simp)
 
 /-! #### the names step -/
 
 theorem getApply_streamSize (b : SecBuf) (o : SecOutcome) : (secGetApply b o).streamSize = b.streamSize := by
   rcases o with _ | _ | d | _ | (_ | _) <;> simp [secGetApply, SecOutcome.apply]
 
-theorem SecPair.streamSize {c : Cls} {D : Bytes} {K : StreamKind} {bl be : SecBuf} (h : SecPair c D K bl be) :
+theorem SecPair.streamSize {c : Cls} {tr : List Trans} {D : Bytes} {K : StreamKind} {bl be : SecBuf} (h : SecPair c tr D K bl be) :
     bl.streamSize = be.streamSize := by
   obtain ⟨b0, hf, hinv, hobs, hst⟩ := h
   have h1 : bl.streamSize = b0.streamSize := by
     rcases hinv with h | ⟨ds, h, _⟩
     · rw [h, getApply_streamSize]
     · rw [h]
-  have h2 : (secGetApply b0 (outcomeOf c [] D K b0)).streamSize = be.streamSize := by
+  have h2 : (secGetApply b0 (outcomeOf c tr D K b0)).streamSize = be.streamSize := by
     simp only [secObs, SecObs.mk.injEq] at hobs
     exact hobs.2.2.2.2.2.2.2.2.2.2.2.2.2.2
-  rw [h1, ← getApply_streamSize b0 (outcomeOf c [] D K b0), h2]
+  rw [h1, ← getApply_streamSize b0 (outcomeOf c tr D K b0), h2]
 
-theorem resolveNames_sim (c : Cls) (D : Bytes) (K : StreamKind) (sL sE : SecBuf)
+theorem resolveNames_sim (c : Cls) (tr : List Trans) (D : Bytes) (K : StreamKind) (sL sE : SecBuf)
     (hs : ∀ x, getString sL x = getString sE x) :
-    ∀ (l m : List SecBuf), Forall2 (SecPair c D K) l m → ∀ r, resolveNames sE m = .ok r →
-      ∃ r', resolveNames sL l = .ok r' ∧ Forall2 (SecPair c D K) r' r := by
+    ∀ (l m : List SecBuf), Forall2 (SecPair c tr D K) l m → ∀ r, resolveNames sE m = .ok r →
+      ∃ r', resolveNames sL l = .ok r' ∧ Forall2 (SecPair c tr D K) r' r := by
   intro l m h
   induction h with
   | nil => intro r hr; simp only [resolveNames] at hr; exact ⟨[], rfl, by cases hr; exact Forall2.nil⟩
@@ -1043,12 +1029,12 @@ theorem resolveNames_sim (c : Cls) (D : Bytes) (K : StreamKind) (sL sE : SecBuf)
         | none => exact hab
         | some s => exact hab.name s
 
-theorem loadNames_sim (c : Cls) (enc : Enc) (hdr : Bytes) (D : Bytes) (K : StreamKind)
+theorem loadNames_sim (c : Cls) (enc : Enc) (tr : List Trans) (hdr : Bytes) (D : Bytes) (K : StreamKind)
     (h63 : D.length < 9223372036854775808) (lsL lsE : LoadSt) (secsL secsE : List SecBuf)
-    (hF : FlagEq lsL.st lsE.st) (hO : Over D K lsE) (hP : Forall2 (SecPair c D K) secsL secsE)
+    (hF : FlagEq lsL.st lsE.st) (hO : Over D K lsE) (hP : Forall2 (SecPair c tr D K) secsL secsE)
     (hS : ∀ b, b ∈ secsL → SsOk D.length lsL b) :
-    ∀ rE, loadNames c enc [] hdr lsE secsE = .ok rE →
-      ∃ rL, loadNames c enc [] hdr lsL secsL = .ok rL ∧ Forall2 (SecPair c D K) rL.2 rE.2 ∧
+    ∀ rE, loadNames c enc tr hdr lsE secsE = .ok rE →
+      ∃ rL, loadNames c enc tr hdr lsL secsL = .ok rL ∧ Forall2 (SecPair c tr D K) rL.2 rE.2 ∧
         FlagEq rL.1.st rE.1.st ∧ Over D K rE.1 := by
   intro rE hE
   have hOL : Over D K lsL := ⟨by rw [hF.1, hO.1], by rw [hF.2.1, hO.2]⟩
@@ -1072,13 +1058,13 @@ theorem loadNames_sim (c : Cls) (enc : Enc) (hdr : Bytes) (D : Bytes) (K : Strea
         have hs := fun x => getString_obs _ _ hobs x
         have hset := forall2_set hP (Hdr.e_shstrndx c enc hdr).toNat _ _ hp'
         simp only [bind, Except.bind] at hE ⊢
-        cases hr : resolveNames (secGetData c [] lsE secsE[(Hdr.e_shstrndx c enc hdr).toNat]).2
+        cases hr : resolveNames (secGetData c tr lsE secsE[(Hdr.e_shstrndx c enc hdr).toNat]).2
             (secsE.set (Hdr.e_shstrndx c enc hdr).toNat
-              (secGetData c [] lsE secsE[(Hdr.e_shstrndx c enc hdr).toNat]).2) with
+              (secGetData c tr lsE secsE[(Hdr.e_shstrndx c enc hdr).toNat]).2) with
         | error f => rw [hr] at hE; exact absurd hE (by simp)
         | ok r =>
           rw [hr] at hE
-          obtain ⟨r', h1, h2⟩ := resolveNames_sim c D K _ _ hs _ _ hset r hr
+          obtain ⟨r', h1, h2⟩ := resolveNames_sim c tr D K _ _ hs _ _ hset r hr
           rw [h1]
           simp only [pure, Except.pure, Except.ok.injEq] at hE ⊢
           refine ⟨_, rfl, ?_⟩
@@ -1086,8 +1072,8 @@ theorem loadNames_sim (c : Cls) (enc : Enc) (hdr : Bytes) (D : Bytes) (K : Strea
           refine ⟨h2, ⟨by simp [hF.1], by simp [hF.2.1], ?_⟩, ⟨by simp [hO.1], by simp [hO.2]⟩⟩
           have hmem : secsL[(Hdr.e_shstrndx c enc hdr).toNat] ∈ secsL := List.getElem_mem hltL
           have hssL := hS _ hmem
-          rw [secGetData_fail_preserved c lsL _ (by rw [hOL.1]; exact h63) (by rw [hOL.1]; exact hssL)]
-          rw [secGetData_fail_preserved c lsE _ (by rw [hO.1]; exact h63)
+          rw [secGetData_fail_preserved c tr lsL _ (by rw [hOL.1]; exact h63) (by rw [hOL.1]; exact hssL)]
+          rw [secGetData_fail_preserved c tr lsE _ (by rw [hO.1]; exact h63)
             (by rw [hO.1, ← hpair.streamSize, ← hF.2.2]; exact hssL)]
           exact hF.2.2
       · have hnE : secsE[(Hdr.e_shstrndx c enc hdr).toNat]? = none := List.getElem?_eq_none (by omega)
@@ -1113,30 +1099,29 @@ theorem segLoad_snd_flagEq (c : Cls) (enc : Enc) (tr : List Trans) (ls ls' : Loa
     rw [segOutcome_indep c tr _ _ h3.1 h3.2.1]
   · rfl
 
-theorem seg_read_fail (ls : LoadSt) (g : Seg) (h63 : ls.st.data.length < 9223372036854775808)
+theorem seg_read_fail (ls : LoadSt) (g : Seg) (off : BitVec 64) (h63 : ls.st.data.length < 9223372036854775808)
     (hss : ls.st.fail = false → g.streamSize = BitVec.ofNat 64 ls.st.data.length)
-    (g1 : ¬ BitVec.ult g.streamSize g.offset = true)
-    (g2 : ¬ (BitVec.ult g.streamSize g.filesz || BitVec.ult (g.streamSize - g.offset) g.filesz) = true) :
-    (mergeFlags_ls ls.st (segReadSt ls.st g.offset g.filesz).1).fail = ls.st.fail := by
+    (g1 : ¬ BitVec.ult g.streamSize off = true)
+    (g2 : ¬ (BitVec.ult g.streamSize g.filesz || BitVec.ult (g.streamSize - off) g.filesz) = true) :
+    (mergeFlags_ls ls.st (segReadSt ls.st off g.filesz).1).fail = ls.st.fail := by
   have hm : ∀ (r : IStream), (mergeFlags_ls ls.st r).fail = (r.fail || ls.st.fail) := fun r => rfl
   cases hf : ls.st.fail
   · have hs := hss hf
     rw [hs] at g1 g2
-    have ho := g.offset.isLt; have hz := g.filesz.isLt
-    have hin : g.offset.toNat + g.filesz.toNat ≤ ls.st.data.length := by
+    have ho := off.isLt; have hz := g.filesz.isLt
+    have hin : off.toNat + g.filesz.toNat ≤ ls.st.data.length := by
       simp only [BitVec.ult, BitVec.toNat_sub, BitVec.toNat_ofNat, Nat.reducePow,
         Bool.or_eq_true, decide_eq_true_eq, not_or, Nat.not_lt] at g1 g2
       omega
-    rw [segReadSt_inside ls.st g.offset g.filesz hin h63]
+    rw [segReadSt_inside ls.st off g.filesz hin h63]
     simp [mergeFlags_ls, IStream.clear, hf]
   · simp [hm, hf]
 
-theorem segLoadData_fail_preserved (c : Cls) (ls : LoadSt) (g : Seg)
+theorem segLoadData_fail_preserved (c : Cls) (tr : List Trans) (ls : LoadSt) (g : Seg)
     (h63 : ls.st.data.length < 9223372036854775808)
     (hss : ls.st.fail = false → g.streamSize = BitVec.ofNat 64 ls.st.data.length) :
-    (segLoadData c [] ls g).1.st.fail = ls.st.fail := by
+    (segLoadData c tr ls g).1.st.fail = ls.st.fail := by
   rw [segLoadData_eq_ls]
-  simp only [secOff_nil]
   cases c <;> simp only [] <;>
    (split
     · rfl
@@ -1147,34 +1132,34 @@ theorem segLoadData_fail_preserved (c : Cls) (ls : LoadSt) (g : Seg)
         · split
           · rfl
           · rename_i g1 g2 g3
-            split <;> exact seg_read_fail ls g h63 hss g1 g2)
+            split <;> exact seg_read_fail ls g (secOff tr g.offset) h63 hss g1 g2)
 
-theorem segLoad_st_flagEq (c : Cls) (enc : Enc) (lsL lsE : LoadSt) (h : FlagEq lsL.st lsE.st)
+theorem segLoad_st_flagEq (c : Cls) (enc : Enc) (tr : List Trans) (lsL lsE : LoadSt) (h : FlagEq lsL.st lsE.st)
     (h63 : lsE.st.data.length < 9223372036854775808) (off : Int) :
-    FlagEq (segLoad c enc [] lsL off true).1.st (segLoad c enc [] lsE off false).1.st := by
-  obtain ⟨h1, h2, h3⟩ := hdrRead_flagEq [] lsL.st lsE.st h off (phdrSize c)
+    FlagEq (segLoad c enc tr lsL off true).1.st (segLoad c enc tr lsE off false).1.st := by
+  obtain ⟨h1, h2, h3⟩ := hdrRead_flagEq tr lsL.st lsE.st h off (phdrSize c)
   rw [segLoad_eq_ls, segLoad_eq_ls]
   simp only [if_true, Bool.false_eq_true, if_false]
   refine ⟨by simp [h.1], by simp [h.2.1], ?_⟩
-  rw [segLoadData_fail_preserved c _ _ (by simpa using h63)
-    (by intro hf; simp only [decodePhdr_streamSize_ls, segInit_ls]; simpa using hdrRead_ss lsE.st off (phdrSize c) hf)]
+  rw [segLoadData_fail_preserved c tr _ _ (by simpa using h63)
+    (by intro hf; simp only [decodePhdr_streamSize_ls, segInit_ls]; simpa using hdrRead_ss tr lsE.st off (phdrSize c) hf)]
   exact h3.2.2
 
-def StableS (c : Cls) (D : Bytes) (K : StreamKind) (ge : Seg) : Prop :=
-  ∀ ls, Over D K ls → segObs (segGetData c [] ls ge).2 = segObs ge
+def StableS (c : Cls) (tr : List Trans) (D : Bytes) (K : StreamKind) (ge : Seg) : Prop :=
+  ∀ ls, Over D K ls → segObs (segGetData c tr ls ge).2 = segObs ge
 
-def SegPair (c : Cls) (D : Bytes) (K : StreamKind) (gl ge : Seg) : Prop :=
-  ∃ g0, SegFresh g0 ∧ (gl = g0 ∨ gl = (segApply g0 (segOutcomeOf c [] D K g0)).1) ∧
-    segObs (segApply g0 (segOutcomeOf c [] D K g0)).1 = segObs ge ∧ StableS c D K ge
+def SegPair (c : Cls) (tr : List Trans) (D : Bytes) (K : StreamKind) (gl ge : Seg) : Prop :=
+  ∃ g0, SegFresh g0 ∧ (gl = g0 ∨ gl = (segApply g0 (segOutcomeOf c tr D K g0)).1) ∧
+    segObs (segApply g0 (segOutcomeOf c tr D K g0)).1 = segObs ge ∧ StableS c tr D K ge
 
-theorem SegPair.obs {c : Cls} {D : Bytes} {K : StreamKind} {gl ge : Seg} (h : SegPair c D K gl ge)
+theorem SegPair.obs {c : Cls} {tr : List Trans} {D : Bytes} {K : StreamKind} {gl ge : Seg} (h : SegPair c tr D K gl ge)
     (ops : List DataOp) (ls1 ls2 : LoadSt) (h1 : Over D K ls1) (h2 : Over D K ls2) :
-    segObs (segGetData c [] (runSegOps c [] ls1 gl ops).1 (runSegOps c [] ls1 gl ops).2).2 =
-      segObs (segGetData c [] ls2 ge).2 := by
+    segObs (segGetData c tr (runSegOps c tr ls1 gl ops).1 (runSegOps c tr ls1 gl ops).2).2 =
+      segObs (segGetData c tr ls2 ge).2 := by
   obtain ⟨g0, hf, hinv, hobs, hst⟩ := h
-  obtain ⟨g1, g2, g3⟩ := runSegOps_inv c [] D K g0 hf ops ls1 gl h1.1 h1.2 hinv
+  obtain ⟨g1, g2, g3⟩ := runSegOps_inv c tr D K g0 hf ops ls1 gl h1.1 h1.2 hinv
   rw [← g1, ← g2] at g3
-  rw [seg_request_inv c [] _ g0 _ hf g3, g1, g2, hobs, hst ls2 h2]
+  rw [seg_request_inv c tr _ g0 _ hf g3, g1, g2, hobs, hst ls2 h2]
 
 theorem segGetData_snd (c : Cls) (tr : List Trans) (ls : LoadSt) (g : Seg) :
     (segGetData c tr ls g).2 =
@@ -1183,16 +1168,16 @@ theorem segGetData_snd (c : Cls) (tr : List Trans) (ls : LoadSt) (g : Seg) :
   · rw [segLoadData_snd]
   · rfl
 
-theorem segOutcome_over (c : Cls) (D : Bytes) (K : StreamKind) (s : IStream) (hd : s.data = D) (hk : s.kind = K)
-    (g : Seg) : segOutcome c [] s g.stype g.filesz g.offset g.streamSize = segOutcomeOf c [] D K g :=
-  segOutcome_indep c [] s { data := D, kind := K } hd hk _ _ _ _
+theorem segOutcome_over (c : Cls) (tr : List Trans) (D : Bytes) (K : StreamKind) (s : IStream) (hd : s.data = D) (hk : s.kind = K)
+    (g : Seg) : segOutcome c tr s g.stype g.filesz g.offset g.streamSize = segOutcomeOf c tr D K g :=
+  segOutcome_indep c tr s { data := D, kind := K } hd hk _ _ _ _
 
-theorem stableS_apply (c : Cls) (D : Bytes) (K : StreamKind) (g : Seg) (hl : g.isLoaded = false) :
-    StableS c D K (segApply g (segOutcomeOf c [] D K g)).1 := by
+theorem stableS_apply (c : Cls) (tr : List Trans) (D : Bytes) (K : StreamKind) (g : Seg) (hl : g.isLoaded = false) :
+    StableS c tr D K (segApply g (segOutcomeOf c tr D K g)).1 := by
   intro ls' hO'
   rw [segGetData_snd]
-  have ho := segOutcome_over c D K ls'.st hO'.1 hO'.2
-  cases hq : segOutcomeOf c [] D K g with
+  have ho := segOutcome_over c tr D K ls'.st hO'.1 hO'.2
+  cases hq : segOutcomeOf c tr D K g with
   | none =>
     simp only [segApply, hl, Bool.not_false, if_true]
     rw [ho g, hq]
@@ -1203,59 +1188,59 @@ theorem stableS_apply (c : Cls) (D : Bytes) (K : StreamKind) (g : Seg) (hl : g.i
       have := ho { g with data := none }
       simp only [] at this
       rw [this]
-      have e : segOutcomeOf c [] D K { g with data := none } = segOutcomeOf c [] D K g := rfl
+      have e : segOutcomeOf c tr D K { g with data := none } = segOutcomeOf c tr D K g := rfl
       rw [e, hq]
     | some d => simp [segApply]
 
-theorem eager_stableS (c : Cls) (enc : Enc) (D : Bytes) (K : StreamKind) (ls : LoadSt) (hO : Over D K ls)
-    (off : Int) : StableS c D K (segLoad c enc [] ls off false).2.1 := by
+theorem eager_stableS (c : Cls) (enc : Enc) (tr : List Trans) (D : Bytes) (K : StreamKind) (ls : LoadSt) (hO : Over D K ls)
+    (off : Int) : StableS c tr D K (segLoad c enc tr ls off false).2.1 := by
   rw [segLoad_eq_ls]
   simp only [Bool.false_eq_true, if_false]
   rw [segLoadData_snd]
   simp only []
-  rw [segOutcome_over c D K _ (by simp [hO.1]) (by simp [hO.2])]
+  rw [segOutcome_over c tr D K _ (by simp [hO.1]) (by simp [hO.2])]
   apply stableS_apply
   simp [segInit_ls]
 
-theorem segPair_of_load (c : Cls) (enc : Enc) (D : Bytes) (K : StreamKind) (lsL lsE : LoadSt)
+theorem segPair_of_load (c : Cls) (enc : Enc) (tr : List Trans) (D : Bytes) (K : StreamKind) (lsL lsE : LoadSt)
     (h : FlagEq lsL.st lsE.st) (hE : Over D K lsE) (off : Int) :
-    SegPair c D K (segLoad c enc [] lsL off true).2.1 (segLoad c enc [] lsE off false).2.1 := by
-  rw [segLoad_snd_flagEq c enc [] lsL lsE h off true]
-  have hf := segLoad_lazy_fresh c enc [] lsE off
-  have hr := seg_request_inv c [] lsE _ _ hf (Or.inl rfl)
-  have he := segGetData_lazy_eq_eager c enc [] lsE lsE off rfl rfl
+    SegPair c tr D K (segLoad c enc tr lsL off true).2.1 (segLoad c enc tr lsE off false).2.1 := by
+  rw [segLoad_snd_flagEq c enc tr lsL lsE h off true]
+  have hf := segLoad_lazy_fresh c enc tr lsE off
+  have hr := seg_request_inv c tr lsE _ _ hf (Or.inl rfl)
+  have he := segGetData_lazy_eq_eager c enc tr lsE lsE off rfl rfl
   rw [hr, hE.1, hE.2] at he
-  exact ⟨_, hf, Or.inl rfl, he, eager_stableS c enc D K lsE hE off⟩
+  exact ⟨_, hf, Or.inl rfl, he, eager_stableS c enc tr D K lsE hE off⟩
 
 theorem segApply_upd (g : Seg) (o : Option (Option Bytes)) (i : Nat) (m : List (BitVec 16)) :
     (segApply { g with index := i, secs := m } o).1 = { (segApply g o).1 with index := i, secs := m } := by
   rcases o with _ | _ | d <;> rfl
 
 /-- recording index and members (the same on both sides) keeps a pair a pair -/
-theorem SegPair.upd {c : Cls} {D : Bytes} {K : StreamKind} {gl ge : Seg} (h : SegPair c D K gl ge)
+theorem SegPair.upd {c : Cls} {tr : List Trans} {D : Bytes} {K : StreamKind} {gl ge : Seg} (h : SegPair c tr D K gl ge)
     (i : Nat) (m : List (BitVec 16)) :
-    SegPair c D K { gl with index := i, secs := m } { ge with index := i, secs := m } := by
+    SegPair c tr D K { gl with index := i, secs := m } { ge with index := i, secs := m } := by
   obtain ⟨g0, hf, hinv, hobs, hst⟩ := h
-  have ho : ∀ g : Seg, segOutcomeOf c [] D K { g with index := i, secs := m } = segOutcomeOf c [] D K g := fun _ => rfl
-  have hap := segApply_upd g0 (segOutcomeOf c [] D K g0) i m
+  have ho : ∀ g : Seg, segOutcomeOf c tr D K { g with index := i, secs := m } = segOutcomeOf c tr D K g := fun _ => rfl
+  have hap := segApply_upd g0 (segOutcomeOf c tr D K g0) i m
   refine ⟨{ g0 with index := i, secs := m }, hf, ?_, ?_, ?_⟩
   · rw [ho]
     rcases hinv with h | h
     · left; rw [h]
     · right; rw [h]; exact hap.symm
   · rw [ho, hap]
-    show ({ segObs (segApply g0 (segOutcomeOf c [] D K g0)).1 with index := i, secs := m } : SegObs) =
+    show ({ segObs (segApply g0 (segOutcomeOf c tr D K g0)).1 with index := i, secs := m } : SegObs) =
       { segObs ge with index := i, secs := m }
     rw [hobs]
   · intro ls hls
     have h1 := hst ls hls
     rw [segGetData_snd] at h1 ⊢
     simp only []
-    have e : segOutcome c [] ls.st ge.stype ge.filesz ge.offset ge.streamSize = segOutcome c [] ls.st ge.stype ge.filesz ge.offset ge.streamSize := rfl
+    have e : segOutcome c tr ls.st ge.stype ge.filesz ge.offset ge.streamSize = segOutcome c tr ls.st ge.stype ge.filesz ge.offset ge.streamSize := rfl
     split
     · rename_i hl
       simp only [hl, if_true] at h1
-      have := segApply_upd ge (segOutcome c [] ls.st ge.stype ge.filesz ge.offset ge.streamSize) i m
+      have := segApply_upd ge (segOutcome c tr ls.st ge.stype ge.filesz ge.offset ge.streamSize) i m
       rw [this]
       show ({ segObs (segApply ge _).1 with index := i, secs := m } : SegObs) = { segObs ge with index := i, secs := m }
       rw [h1]
@@ -1274,21 +1259,21 @@ theorem segApply_hdr (g : Seg) (o : Option (Option Bytes)) :
       (segApply g o).1.memsz) = (g.stype, g.offset, g.filesz, g.vaddr, g.memsz) := by
   rcases o with _ | _ | d <;> rfl
 
-theorem SegPair.hdr {c : Cls} {D : Bytes} {K : StreamKind} {gl ge : Seg} (h : SegPair c D K gl ge) :
+theorem SegPair.hdr {c : Cls} {tr : List Trans} {D : Bytes} {K : StreamKind} {gl ge : Seg} (h : SegPair c tr D K gl ge) :
     (gl.stype, gl.offset, gl.filesz, gl.vaddr, gl.memsz) = (ge.stype, ge.offset, ge.filesz, ge.vaddr, ge.memsz) := by
   obtain ⟨g0, hf, hinv, hobs, hst⟩ := h
   have h1 : (gl.stype, gl.offset, gl.filesz, gl.vaddr, gl.memsz) = (g0.stype, g0.offset, g0.filesz, g0.vaddr, g0.memsz) := by
     rcases hinv with h | h
     · rw [h]
     · rw [h]; exact segApply_hdr _ _
-  rw [h1, ← segApply_hdr g0 (segOutcomeOf c [] D K g0)]
+  rw [h1, ← segApply_hdr g0 (segOutcomeOf c tr D K g0)]
   simp only [segObs, SegObs.mk.injEq] at hobs
   simp only [Prod.mk.injEq]
   exact ⟨hobs.2.1, hobs.2.2.2.1, hobs.2.2.2.2.2.2.1, hobs.2.2.2.2.1, hobs.2.2.2.2.2.2.2.1⟩
 
-theorem members_sim (c : Cls) (D : Bytes) (K : StreamKind) (gl ge : Seg)
+theorem members_sim (c : Cls) (tr : List Trans) (D : Bytes) (K : StreamKind) (gl ge : Seg)
     (hg : (gl.stype, gl.offset, gl.filesz, gl.vaddr, gl.memsz) = (ge.stype, ge.offset, ge.filesz, ge.vaddr, ge.memsz)) :
-    ∀ (l m : List SecBuf), Forall2 (SecPair c D K) l m →
+    ∀ (l m : List SecBuf), Forall2 (SecPair c tr D K) l m →
       (l.filter (memberOf gl)).map (fun b => BitVec.ofNat 16 b.index) =
       (m.filter (memberOf ge)).map (fun b => BitVec.ofNat 16 b.index) := by
   intro l m h
@@ -1314,15 +1299,15 @@ theorem segLoad_lazy_ok (c : Cls) (enc : Enc) (tr : List Trans) (ls : LoadSt) (o
     (segLoad c enc tr ls off true).2.2 = true := by
   rw [segLoad_eq_ls]; rfl
 
-theorem loadSegmentsLoop_sim (c : Cls) (enc : Enc) (D : Bytes) (K : StreamKind)
+theorem loadSegmentsLoop_sim (c : Cls) (enc : Enc) (tr : List Trans) (D : Bytes) (K : StreamKind)
     (h63 : D.length < 9223372036854775808) (phoff : Int) (entsize : Nat) (secsL secsE : List SecBuf)
-    (hsec : Forall2 (SecPair c D K) secsL secsE) :
+    (hsec : Forall2 (SecPair c tr D K) secsL secsE) :
     ∀ (n i : Nat) (lsL lsE : LoadSt) (accL accE : List Seg),
-      FlagEq lsL.st lsE.st → Over D K lsE → Forall2 (SegPair c D K) accL accE →
-      (loadSegmentsLoop c enc [] false phoff entsize secsE n i lsE accE).2.2 = true →
-      (loadSegmentsLoop c enc [] true phoff entsize secsL n i lsL accL).2.2 = true ∧
-      Forall2 (SegPair c D K) (loadSegmentsLoop c enc [] true phoff entsize secsL n i lsL accL).2.1
-        (loadSegmentsLoop c enc [] false phoff entsize secsE n i lsE accE).2.1 := by
+      FlagEq lsL.st lsE.st → Over D K lsE → Forall2 (SegPair c tr D K) accL accE →
+      (loadSegmentsLoop c enc tr false phoff entsize secsE n i lsE accE).2.2 = true →
+      (loadSegmentsLoop c enc tr true phoff entsize secsL n i lsL accL).2.2 = true ∧
+      Forall2 (SegPair c tr D K) (loadSegmentsLoop c enc tr true phoff entsize secsL n i lsL accL).2.1
+        (loadSegmentsLoop c enc tr false phoff entsize secsE n i lsE accE).2.1 := by
   intro n
   induction n with
   | zero =>
@@ -1331,13 +1316,13 @@ theorem loadSegmentsLoop_sim (c : Cls) (enc : Enc) (D : Bytes) (K : StreamKind)
     exact ⟨by simp, forall2_reverse hA⟩
   | succ n ih =>
     intro i lsL lsE accL accE hF hO hA hok
-    have hp := segPair_of_load c enc D K lsL lsE hF hO (phoff + Int.ofNat i * Int.ofNat entsize)
-    have hf' := segLoad_st_flagEq c enc lsL lsE hF (by rw [hO.1]; exact h63) (phoff + Int.ofNat i * Int.ofNat entsize)
-    have ho' := segLoad_over c enc [] lsE (phoff + Int.ofNat i * Int.ofNat entsize) false
-    have hlok := segLoad_lazy_ok c enc [] lsL (phoff + Int.ofNat i * Int.ofNat entsize)
+    have hp := segPair_of_load c enc tr D K lsL lsE hF hO (phoff + Int.ofNat i * Int.ofNat entsize)
+    have hf' := segLoad_st_flagEq c enc tr lsL lsE hF (by rw [hO.1]; exact h63) (phoff + Int.ofNat i * Int.ofNat entsize)
+    have ho' := segLoad_over c enc tr lsE (phoff + Int.ofNat i * Int.ofNat entsize) false
+    have hlok := segLoad_lazy_ok c enc tr lsL (phoff + Int.ofNat i * Int.ofNat entsize)
     simp only [loadSegmentsLoop] at hok ⊢
-    generalize segLoad c enc [] lsE (phoff + Int.ofNat i * Int.ofNat entsize) false = xE at *
-    generalize segLoad c enc [] lsL (phoff + Int.ofNat i * Int.ofNat entsize) true = xL at *
+    generalize segLoad c enc tr lsE (phoff + Int.ofNat i * Int.ofNat entsize) false = xE at *
+    generalize segLoad c enc tr lsL (phoff + Int.ofNat i * Int.ofNat entsize) true = xL at *
     obtain ⟨lsE', gE, okE⟩ := xE
     obtain ⟨lsL', gL, okL⟩ := xL
     simp only at hp hf' ho' hlok hok ⊢
@@ -1349,44 +1334,43 @@ theorem loadSegmentsLoop_sim (c : Cls) (enc : Enc) (D : Bytes) (K : StreamKind)
       simp only [Bool.or_eq_true, Bool.not_eq_true', not_or, Bool.not_eq_false, Bool.not_eq_true] at hcond
       have hfl : lsL'.st.fail = false := by rw [hf'.2.2]; exact hcond.2
       simp only [hfl, Bool.not_true, Bool.or_self, Bool.false_eq_true, if_false]
-      have hm := members_sim c D K gL gE hp.hdr secsL secsE hsec
+      have hm := members_sim c tr D K gL gE hp.hdr secsL secsE hsec
       rw [hm]
       exact ih (i + 1) lsL' lsE' _ _ hf' ⟨by rw [ho'.1, hO.1], by rw [ho'.2, hO.2]⟩
         (Forall2.cons (hp.upd i _) hA) hok
 
 /-! #### assembly -/
 
-theorem loadSections_sim (c : Cls) (enc : Enc) (hdr : Bytes) (st : IStream)
+theorem loadSections_sim (c : Cls) (enc : Enc) (tr : List Trans) (hdr : Bytes) (st : IStream)
     (h63 : st.data.length < 9223372036854775808) :
-    Forall2 (SecPair c st.data st.kind) (loadSections c enc [] true hdr st).2 (loadSections c enc [] false hdr st).2 ∧
-    FlagEq (loadSections c enc [] true hdr st).1.st (loadSections c enc [] false hdr st).1.st ∧
-    Over st.data st.kind (loadSections c enc [] false hdr st).1 ∧
-    (∀ b, b ∈ (loadSections c enc [] true hdr st).2 →
-      SsOk st.data.length (loadSections c enc [] true hdr st).1 b) := by
+    Forall2 (SecPair c tr st.data st.kind) (loadSections c enc tr true hdr st).2 (loadSections c enc tr false hdr st).2 ∧
+    FlagEq (loadSections c enc tr true hdr st).1.st (loadSections c enc tr false hdr st).1.st ∧
+    Over st.data st.kind (loadSections c enc tr false hdr st).1 ∧
+    (∀ b, b ∈ (loadSections c enc tr true hdr st).2 →
+      SsOk st.data.length (loadSections c enc tr true hdr st).1 b) := by
   unfold loadSections
   split
   · exact ⟨Forall2.nil, FlagEq.refl _, ⟨rfl, rfl⟩, fun b hb => absurd hb (by simp)⟩
-  · exact loadSectionsLoop_sim c enc st.data st.kind h63 _ _ _ 0 { st := st } { st := st } [] []
+  · exact loadSectionsLoop_sim c enc tr st.data st.kind h63 _ _ _ 0 { st := st } { st := st } [] []
       (FlagEq.refl _) ⟨rfl, rfl⟩ Forall2.nil (fun b hb => absurd hb (by simp))
 
 /-- everything after the gate: if the eager run succeeds, the lazy run succeeds with pairwise
     equivalent sections and segments -/
-theorem loadBody_sim (o : Obj) (c : Cls) (enc : Enc) (hdr : Bytes) (st : IStream) (htr : o.trans = [])
+theorem loadBody_sim (o : Obj) (c : Cls) (enc : Enc) (hdr : Bytes) (st : IStream)
     (h63 : st.data.length < 9223372036854775808) (re : LoadRes)
     (he : loadBody o c enc hdr st false = .ok re) (hok : re.ok = true) :
     ∃ rl, loadBody o c enc hdr st true = .ok rl ∧ rl.ok = true ∧
       rl.obj.cls = re.obj.cls ∧ rl.obj.enc = re.obj.enc ∧ rl.obj.hdr = re.obj.hdr ∧
-      Forall2 (SecPair c st.data st.kind) rl.obj.secs re.obj.secs ∧
-      Forall2 (SegPair c st.data st.kind) rl.obj.segs re.obj.segs := by
-  obtain ⟨s1, s2, s3, s4⟩ := loadSections_sim c enc hdr st h63
+      Forall2 (SecPair c o.trans st.data st.kind) rl.obj.secs re.obj.secs ∧
+      Forall2 (SegPair c o.trans st.data st.kind) rl.obj.segs re.obj.segs := by
+  obtain ⟨s1, s2, s3, s4⟩ := loadSections_sim c enc o.trans hdr st h63
   unfold loadBody at he ⊢
-  rw [htr] at he ⊢
   simp only [bind, Except.bind] at he ⊢
-  cases hn : loadNames c enc [] hdr (loadSections c enc [] false hdr st).1 (loadSections c enc [] false hdr st).2 with
+  cases hn : loadNames c enc o.trans hdr (loadSections c enc o.trans false hdr st).1 (loadSections c enc o.trans false hdr st).2 with
   | error f => rw [hn] at he; exact absurd he (by simp)
   | ok pE =>
     rw [hn] at he
-    obtain ⟨pL, n1, n2, n3, n4⟩ := loadNames_sim c enc hdr st.data st.kind h63 _ _ _ _ s2 s3 s1 s4 pE hn
+    obtain ⟨pL, n1, n2, n3, n4⟩ := loadNames_sim c enc o.trans hdr st.data st.kind h63 _ _ _ _ s2 s3 s1 s4 pE hn
     rw [n1]
     simp only [pure, Except.pure, Except.ok.injEq] at he ⊢
     refine ⟨_, rfl, ?_⟩
@@ -1396,8 +1380,7 @@ theorem loadBody_sim (o : Obj) (c : Cls) (enc : Enc) (hdr : Bytes) (st : IStream
     · exact absurd hok (by simp)
     · rename_i hb
       simp only [hb, Bool.false_eq_true, if_false] at hok ⊢
-      rw [htr] at hok ⊢
-      obtain ⟨g1, g2⟩ := loadSegmentsLoop_sim c enc st.data st.kind h63 _ _ pL.2 pE.2 n2 _ 0 pL.1 pE.1 [] []
+      obtain ⟨g1, g2⟩ := loadSegmentsLoop_sim c enc o.trans st.data st.kind h63 _ _ pL.2 pE.2 n2 _ 0 pL.1 pE.1 [] []
         n3 n4 Forall2.nil hok
       refine ⟨g1, ?_, ?_, ?_, n2, g2⟩ <;> first | trivial | rfl
 
@@ -1412,18 +1395,19 @@ theorem loadBody_cls (o : Obj) (c : Cls) (enc : Enc) (hdr : Bytes) (st : IStream
     unfold loadSegs
     split <;> rfl
 
-/-- **lazy = eager, every image** (no address translation, image shorter than 2^63 bytes) : if the
+/-- **lazy = eager, every image, every translation table** (stream shorter than 2^63 bytes; `st` is the
+    stream that is read — the container when a table is set, and nothing is assumed about the table) : if the
     eager `load` succeeds, the lazy `load` succeeds, with the same header, and every section and
     segment pairwise equivalent (`SecPair` / `SegPair`: see `lazy_eq_eager_obs`).
     The hypothesis `re.ok = true` excludes exactly the open finding F15
     (`lazy_load_unreadable_segment_witness`). -/
-theorem lazy_eq_eager (o : Obj) (st : IStream) (htr : o.trans = [])
+theorem lazy_eq_eager (o : Obj) (st : IStream)
     (h63 : st.data.length < 9223372036854775808) (re : LoadRes)
     (he : load o st false = .ok re) (hok : re.ok = true) :
     ∃ rl, load o st true = .ok rl ∧ rl.ok = true ∧
       rl.obj.cls = re.obj.cls ∧ rl.obj.enc = re.obj.enc ∧ rl.obj.hdr = re.obj.hdr ∧
-      Forall2 (SecPair re.obj.cls st.data st.kind) rl.obj.secs re.obj.secs ∧
-      Forall2 (SegPair re.obj.cls st.data st.kind) rl.obj.segs re.obj.segs := by
+      Forall2 (SecPair re.obj.cls o.trans st.data st.kind) rl.obj.secs re.obj.secs ∧
+      Forall2 (SegPair re.obj.cls o.trans st.data st.kind) rl.obj.segs re.obj.segs := by
   rw [load_eq_ls] at he ⊢
   simp only [] at he ⊢
   have hfail : ∀ (o' : Obj) (s : IStream), loadFail o' s = .ok re → False := by
@@ -1451,7 +1435,7 @@ theorem lazy_eq_eager (o : Obj) (st : IStream) (htr : o.trans = [])
             simp only [h3, Bool.false_eq_true, if_false]
             have hd : ((( st.seekg (trApply o.trans 0)).read 16).1.seekg (trApply o.trans 0) |>.read (ehdrSize c)).1.data = st.data := by simp
             have hk : ((( st.seekg (trApply o.trans 0)).read 16).1.seekg (trApply o.trans 0) |>.read (ehdrSize c)).1.kind = st.kind := by simp
-            have hb := loadBody_sim (c := c) (enc := enc) (re := re) (he := he) (hok := hok) (htr := by exact htr)
+            have hb := loadBody_sim (c := c) (enc := enc) (re := re) (he := he) (hok := hok)
               (h63 := by rw [hd]; exact h63)
             rw [hd, hk] at hb
             have hcls : re.obj.cls = c := loadBody_cls _ c enc _ _ false re he
@@ -1459,12 +1443,12 @@ theorem lazy_eq_eager (o : Obj) (st : IStream) (htr : o.trans = [])
             rw [hcls] at hb
             exact hb
 
-/-- **C15, lazy part, in observations** : for every image (no translation, shorter than 2^63 bytes)
-    whose eager load succeeds, the lazy load succeeds and — for every section and every segment, after
+/-- **C15, lazy part, in observations** : for every stream shorter than 2^63 bytes, under every address
+    translation table (faithful or not; intact, truncated or corrupted container), whose eager load succeeds, the lazy load succeeds and — for every section and every segment, after
     ANY interleaving of data requests, data releases and arbitrary stream movements / error states
     on the lazily loaded object — a data request shows exactly what the eagerly loaded object shows
     (all header fields, name, data buffer, data size; members of segments). -/
-theorem lazy_eq_eager_obs (o : Obj) (st : IStream) (htr : o.trans = [])
+theorem lazy_eq_eager_obs (o : Obj) (st : IStream)
     (h63 : st.data.length < 9223372036854775808) (re : LoadRes)
     (he : load o st false = .ok re) (hok : re.ok = true) :
     ∃ rl, load o st true = .ok rl ∧ rl.ok = true ∧ rl.obj.cls = re.obj.cls ∧ rl.obj.enc = re.obj.enc ∧
@@ -1472,15 +1456,15 @@ theorem lazy_eq_eager_obs (o : Obj) (st : IStream) (htr : o.trans = [])
       rl.obj.secs.length = re.obj.secs.length ∧ rl.obj.segs.length = re.obj.segs.length ∧
       (∀ i (h1 : i < rl.obj.secs.length) (h2 : i < re.obj.secs.length) (ops : List DataOp) (ls1 ls2 : LoadSt),
         Over st.data st.kind ls1 → Over st.data st.kind ls2 →
-        secObs (secGetData re.obj.cls [] (runSecOps re.obj.cls [] ls1 rl.obj.secs[i] ops).1
-                  (runSecOps re.obj.cls [] ls1 rl.obj.secs[i] ops).2).2 =
-          secObs (secGetData re.obj.cls [] ls2 re.obj.secs[i]).2) ∧
+        secObs (secGetData re.obj.cls o.trans (runSecOps re.obj.cls o.trans ls1 rl.obj.secs[i] ops).1
+                  (runSecOps re.obj.cls o.trans ls1 rl.obj.secs[i] ops).2).2 =
+          secObs (secGetData re.obj.cls o.trans ls2 re.obj.secs[i]).2) ∧
       (∀ j (h1 : j < rl.obj.segs.length) (h2 : j < re.obj.segs.length) (ops : List DataOp) (ls1 ls2 : LoadSt),
         Over st.data st.kind ls1 → Over st.data st.kind ls2 →
-        segObs (segGetData re.obj.cls [] (runSegOps re.obj.cls [] ls1 rl.obj.segs[j] ops).1
-                  (runSegOps re.obj.cls [] ls1 rl.obj.segs[j] ops).2).2 =
-          segObs (segGetData re.obj.cls [] ls2 re.obj.segs[j]).2) := by
-  obtain ⟨rl, a1, a2, a3, a4, a5, a6, a7⟩ := lazy_eq_eager o st htr h63 re he hok
+        segObs (segGetData re.obj.cls o.trans (runSegOps re.obj.cls o.trans ls1 rl.obj.segs[j] ops).1
+                  (runSegOps re.obj.cls o.trans ls1 rl.obj.segs[j] ops).2).2 =
+          segObs (segGetData re.obj.cls o.trans ls2 re.obj.segs[j]).2) := by
+  obtain ⟨rl, a1, a2, a3, a4, a5, a6, a7⟩ := lazy_eq_eager o st h63 re he hok
   refine ⟨rl, a1, a2, a3, a4, a5, forall2_length a6, forall2_length a7, ?_, ?_⟩
   · intro i h1 h2 ops ls1 ls2 o1 o2
     exact (forall2_get a6 i h1 h2).obs ops ls1 ls2 o1 o2
@@ -1853,13 +1837,15 @@ example : ∃ rp rt : LoadRes, load {} { data := wfImage } false = .ok rp ∧
     (by decide +kernel) (by decide +kernel)
 
 
-/-! ### a limit of lazy = eager: translation table + truncated container (candidate finding)
+/-! ### translation table + truncated container (former finding F16, repaired)
 
-With a non-empty table `stream_size = SIZE_MAX`, so no bound protects the eager data read; when the
-container is too short the read comes up short, `setstate(earlier)` keeps the new failbit, and every
-*later* section header is unreadable in the eager load — the lazy load reads them all.  Both loads
-return true.  (`lazy_eq_eager` therefore needs `o.trans = []`; `translated_eq_plain` needs
-`Represents`.)  The same transcript was obtained from the real code with harness/load.cpp. -/
+Before the repair a non-empty table made `stream_size = SIZE_MAX`, so no bound protected the eager data
+read; on a container that is too short the read came up short, `setstate(earlier)` kept the new failbit,
+and every *later* section header was unreadable in the eager load while the lazy load read them all
+(both loads returned true).  `section_impl::load` / `segment_impl::load` now record the real stream size
+with a table too: the out-of-range data read is refused in both modes and the stream stays usable.
+`lazy_eq_eager` / `lazy_eq_eager_obs` above therefore hold for EVERY translation table (no hypothesis on
+`o.trans`, none on the container); the concrete instance below is the former witness. -/
 
 /-- C02's example image with `e_phnum = 0`, cut into `[108,228)` and `[0,108)`, the second piece
     truncated to 86 bytes (the `.text` data at 84..88 is incomplete) -/
@@ -1872,8 +1858,10 @@ def secTypes (r : M LoadRes) : Option (Bool × List Nat) :=
   | .ok r => some (r.ok, r.obj.secs.map (·.stype.toNat))
   | .error _ => none
 
-theorem lazy_eager_translated_truncated_witness :
-    secTypes (load { trans := truncTable } { data := truncContainer } false) = some (true, [0, 1, 0]) ∧
+/-- on the former F16 witness the eager and the lazy load now show the same sections (all three
+    headers read; the `.text` data, cut off in the container, is refused by both) -/
+theorem lazy_eager_translated_truncated_agree :
+    secTypes (load { trans := truncTable } { data := truncContainer } false) = some (true, [0, 1, 3]) ∧
     secTypes (load { trans := truncTable } { data := truncContainer } true) = some (true, [0, 1, 3]) := by
   decide +kernel
 
